@@ -385,13 +385,15 @@ Proof.
 Qed.
 
 (* ---------- percentile on a non-empty NaN-free list ---------- *)
-Lemma bi_percentile_unfold l p : in_0_100 p = true ->
+Lemma bi_percentile_unfold l p : in_0_100 p = true -> l <> [] -> nan_free l = true ->
   bi_percentile [VList (nums l); VNum p] =
   (do s <- sort_pc l; do len1 <- usize_sub false (len s) 1;
    do x <- index_num s (percentile_index p len1); Ok (VNum x)).
 Proof.
-  intros Hp. unfold bi_percentile, bi_percentile_gen. cbn [arg nth_error obind as_number as_list].
-  rewrite Hp. cbn [negb]. fold (nums l). rewrite mapM_as_number_nums. reflexivity.
+  intros Hp Hne Hl. unfold bi_percentile, bi_percentile_gen. cbn [arg nth_error obind as_number as_list].
+  rewrite Hp. cbn [negb]. fold (nums l). rewrite mapM_as_number_nums. cbn [obind].
+  replace (has_nan l) with false by (rewrite has_nan_nan_free, Hl; reflexivity).
+  destruct l; [contradiction|reflexivity].
 Qed.
 
 Definition rank_of (p : num) (l : list num) : nat := Z.to_nat (percentile_index p (len l - 1)).
